@@ -302,6 +302,11 @@ def specs_seq(c, th):
 PRED_FREE = ('SequenceTokenCount', 'SequenceCount', 'SequenceLength', 'SequenceTruncationRate', 'SequenceTokenOOVRate')
 
 
+# sub-spaces re-executed under other interpreter configurations (mc.core.CONFIGS): {configuration: {sub-space: stride}}
+# quick tier: every stride-th planned case, thorough tier: all planned cases
+CONFIG_PASSES = {'x64': {'grid': 12, 'identities': 1}}
+
+
 def plan(ctx):
   th = ctx.tier == 'thorough'
   ctx.rule = ('per metric object: the complete grid scores {-1,0,1}^(LxC) (+ extreme rows 1e30 / +-inf for '
